@@ -19,11 +19,59 @@ package apk
 //@   ensures [C07] no-env: !ghostFlag("envRead")
 //@   modifies [C11 C12] &info.Arch, &info.Contents
 //
+//@ spec func apkItem(c *files.Content) string {
+//@     switch c.Type {
+//@     case "dir", "implicit dir":
+//@         return ufStr("tarHead", files.AsRelativePath(c.Destination), int64(c.FileInfo.Mode&0o7777), int64(0), byte('5'), "", c.FileInfo.Owner, c.FileInfo.Group, c.FileInfo.MTime)
+//@     case "symlink":
+//@         return ufStr("tarHead", files.AsRelativePath(c.Destination), int64(0), int64(0), byte('2'), c.Source, "", "", c.FileInfo.MTime)
+//@     }
+//@     return ufStr("tarHead", files.AsRelativePath(files.AsRelativePath(c.Destination)), int64(c.FileInfo.Mode), c.FileInfo.Size, byte('0'), "", c.FileInfo.Owner, c.FileInfo.Group, c.FileInfo.MTime) + fsContent(c.Source)
+//@ }
+//
+//@ spec func apkPayload(cs files.Contents, n int) string {
+//@     return foldStr(n, func(i int) string { return apkItem(cs[i]) })
+//@ }
+//
+//@ spec func apkSize(c *files.Content) int64 {
+//@     if c.Type == "dir" || c.Type == "implicit dir" || c.Type == "symlink" { return 0 }
+//@     return c.FileInfo.Size
+//@ }
+//
+//@ spec func apkSizes(cs files.Contents, n int) int64 {
+//@     return foldInt(n, func(i int) int64 { return apkSize(cs[i]) })
+//@ }
+//
+//@ spec func apkEntryOK(c *files.Content) bool {
+//@     if c.Type == "dir" || c.Type == "implicit dir" || c.Type == "symlink" { return true }
+//@     return c.FileInfo.Mode < 1<<18 && c.FileInfo.Size == int64(len(fsContent(c.Source)))
+//@ }
+//
+//@ spec func apkEntriesOK(cs files.Contents) bool {
+//@     return forall(0, len(cs), func(i int) bool { return apkEntryOK(cs[i]) })
+//@ }
+//
+//@ spec func entriesDistinct(cs files.Contents) bool {
+//@     return forall(0, len(cs), func(j int) bool { return forall(0, len(cs), func(k int) bool { return j == k || cs[j] != cs[k] }) })
+//@ }
+//
 //@ inline func createFilesInsideTarGz(info *nfpm.Info, tw *tar.Writer, sizep *int64) (err error)
-//@   loop 0
+//@   requires [C01] info != nil && tw != nil && sizep != nil && files.SpecContentsNonNil(info.Contents)
+//@   requires [C01] files.SpecPlanInputOK(info.Contents, !info.MTime.IsZero())
+//@   requires [C01] apkEntriesOK(info.Contents) && entriesDistinct(info.Contents)
+//@   requires !ghostFlag("failed") && !ghostFlag("clockRead") && !ghostFlag("envRead")
+//@   ensures [C01] payload-is-exactly-the-plan: implies(err == nil, ghostStr(tw, "tarManifest") == old(ghostStr(tw, "tarManifest")) + old(apkPayload(info.Contents, len(info.Contents))))
+//@   ensures [C03] installed-size-is-the-sum-of-the-regular-files: implies(err == nil, *sizep == old(*sizep) + old(apkSizes(info.Contents, len(info.Contents))))
+//@   loop 0 (iter int)
+//@     invariant [C03] size-so-far: inlined() || *sizep == old(*sizep) + old(apkSizes(info.Contents, iter))
+//@     invariant [C01] payload-so-far: inlined() || ghostStr(tw, "tarManifest") == old(ghostStr(tw, "tarManifest")) + old(apkPayload(info.Contents, iter))
+//@     invariant [C01] later-entries-untouched: inlined() || forall(iter, len(info.Contents), func(j int) bool { return info.Contents[j].Destination == old(info.Contents[j].Destination) })
+//@     invariant [C01] between-entries: inlined() || (ghostInt(tw, "tarRemaining") == 0 && !ghostBool(tw, "tarClosed") && ghostAny(tw, "werr") == nil)
+//@     invariant [C01] index-in-range: 0 <= iter && iter <= len(info.Contents)
+//@     invariant [C01] plan-entries-complete: inlined() || files.SpecPlanInputOK(info.Contents, !old(info.MTime.IsZero()))
 //@     invariant [C06] no-failure-so-far: !ghostFlag("failed")
 //@     invariant [C07] no-clock-so-far: implies(!old(info.MTime.IsZero()), !ghostFlag("clockRead"))
-//@     invariant [C11 C12] plan-still-fresh: nfpm.SpecPlanOK(info.Contents, !old(info.MTime.IsZero()))
+//@     invariant [C11 C12] plan-still-fresh: !inlined() || nfpm.SpecPlanOK(info.Contents, !old(info.MTime.IsZero()))
 //
 //@ inline func combineToApk(target io.Writer, readers ...io.Reader) (err error)
 //@   loop 0 unroll 4
@@ -132,3 +180,15 @@ package apk
 //@       apkScript(".pre-deinstall", info.Scripts.PreRemove) +
 //@       apkScript(".pre-install", info.Scripts.PreInstall) +
 //@       apkScript(".pre-upgrade", info.APK.Scripts.PreUpgrade))
+//
+//@ spec func apkSigName(keyName string) string {
+//@     if strings.HasSuffix(keyName, ".rsa.pub") { return ".SIGN.RSA." + keyName }
+//@     return ".SIGN.RSA." + keyName + ".rsa.pub"
+//@ }
+//
+//@ inline func createSignatureBuilder$1(tw *tar.Writer) (err error) captures (digest []byte, info *nfpm.Info)
+//@   requires info != nil && tw != nil
+//@   requires !ghostFlag("failed")
+//@   ensures [C10] the-callback-receives-the-control-digest: implies(err == nil && !isNilFunc(info.APK.Signature.SignFn), globStr("signedBytes") == string(digest))
+//@   ensures [C10] signature-member-is-named-after-the-key: implies(err == nil && info.APK.Signature.KeyName != "", ghostStr(tw, "lastName") == apkSigName(info.APK.Signature.KeyName))
+//@   ensures [C10 C06] a-failing-signer-is-reported: implies(ghostFlag("failed"), err != nil)
